@@ -1366,3 +1366,54 @@ pub fn suite_small_values(out: &mut Out, tier: &str, rng: &mut Rng) {
         out.emit(json!({"op": "roundtrip", "kind": "msg", "v": d}));
     }
 }
+
+
+/// octets inserted at structural boundaries of a valid message (after the flags, after the header, between
+/// AVPs, at the end), with and without the Length field adjusted
+fn padded_variants(rng: &mut Rng, base: &[u8]) -> Vec<Vec<u8>> {
+    let mut out = Vec::new();
+    if base.len() < 12 || base[0] & 1 == 0 {
+        return out;
+    }
+    // boundaries inside a control message: 2 (after flags), 4 (after length), 12 (start of AVP area), each AVP start, end
+    let mut bounds = vec![2usize, 4, 12];
+    let mut i = 12;
+    while i + 6 <= base.len() {
+        let n = (((base[i] >> 6) as usize) << 8) | base[i + 1] as usize;
+        if n < 6 || i + n > base.len() {
+            break;
+        }
+        i += n;
+        bounds.push(i);
+    }
+    for &at in bounds.iter() {
+        for pad in [&[0u8][..], &[0, 0], &[0, 0, 0, 0], &[0xff, 0xff], &[0, 6], &[0, 0, 0, 0, 0, 0]] {
+            if rng.chance(1, 2) {
+                continue;
+            }
+            let mut v = base.to_vec();
+            v.splice(at..at, pad.iter().copied());
+            let mut w = v.clone();
+            let l = w.len() as u16;
+            w[2..4].copy_from_slice(&l.to_be_bytes());
+            out.push(w); // Length adjusted
+            out.push(v); // Length as it was
+        }
+    }
+    out
+}
+
+/// C14 (and C05): flag bits toggled one at a time on valid, padded and invalid messages, all checks off
+pub fn suite_bits(out: &mut Out, tier: &str, rng: &mut Rng) {
+    for _ in 0..counts(tier, 12, 400) {
+        let base = enc_control(&gen_control(rng, 3, 10));
+        out.emit(json!({"op": "decode_bits", "in": bytes_json(&base)}));
+        for v in padded_variants(rng, &base) {
+            out.emit(json!({"op": "decode_bits", "in": bytes_json(&v)}));
+        }
+    }
+    for _ in 0..counts(tier, 150, 5000) {
+        let b = random_message_input_pub(rng);
+        out.emit(json!({"op": "decode_bits", "in": bytes_json(&b)}));
+    }
+}
